@@ -92,10 +92,12 @@ impl Ctx {
         self.tape.draw(bound as u64) as usize
     }
 
-    /// true with probability num/den
+    /// true with probability num/den. High draws mean true, so that a zeroed tape takes the
+    /// common branch of every rare choice and leaves every "one more?" loop at once
+    /// (small-is-simple, which is what the tape minimiser relies on).
     #[inline]
     pub fn chance(&mut self, num: u64, den: u64) -> bool {
-        self.tape.draw(den) < num
+        self.tape.draw(den) + num >= den
     }
 
     #[inline]
